@@ -231,6 +231,9 @@ class Value(ABC):
         """
         original_value = value
 
+        if not value:
+            raise ValueTypeError("missing value")
+
         if instruction and instruction.is_string_define:
             try:
                 return StringValue(value)
@@ -370,7 +373,7 @@ class StringValue(Value):
         super().__init__(value)
         self.hex_array = []
         self.type = ValueType.STRING
-        if value[-1] != value[0]:
+        if len(value) < 2 or value[-1] != value[0]:
             raise ValueTypeError("string must begin and end with same delimiter")
         self.original_string = value[1:-1]
         self.hex_array = ["{:X}".format(ord(x)) for x in value[1:-1]]
